@@ -93,7 +93,7 @@ func c10GenCase(rt *rapid.T) c10Case {
 		case k < 11:
 			c.Actions = append(c.Actions, c10Action{Kind: "reset"})
 		case k == 19 && i > n/2 && rapid.IntRange(0, 2).Draw(rt, "break") == 0:
-			c.Actions = append(c.Actions, c10Action{Kind: "break"})
+			c.Actions = append(c.Actions, c10Action{Kind: rapid.SampledFrom([]string{"break", "break", "oversize"}).Draw(rt, "breakkind")})
 		default:
 			a := c10Action{Kind: "execve", Target: rapid.SampledFrom(c10Targets).Draw(rt, "target"), Sync: rapid.SampledFrom([]string{"none", "ok", "ok", "fail"}).Draw(rt, "sync"),
 				After: rapid.IntRange(0, 3).Draw(rt, "after") == 0, Ctx: rapid.SampledFrom([]string{"background", "background", "background", "cancelled", "cancel-after"}).Draw(rt, "ctx"),
@@ -482,6 +482,23 @@ func c10Run(c c10Case, rec *vh.Recorder) error {
 			syscall.Kill(initPid, syscall.SIGKILL)
 			broken = true
 			classes = append(classes, "transport-cut")
+		case "oversize":
+			// a request that does not fit the 32 KiB frame: the call is answered with an error (never left waiting); the
+			// documented consequence for the environment is that of a transport loss: every later call fails promptly
+			var r runner.Result
+			big := "BIG=" + strings.Repeat("x", 48<<10)
+			_, dt, hung := call("execve", func() error {
+				r = env.Execve(context.Background(), container.ExecveParam{Args: []string{"/bin/true"}, Env: []string{"PATH=/bin", big}})
+				return nil
+			})
+			if hung {
+				return vh.Violf("C10:call-never-answered", "%s: an Execve whose request exceeds the frame size did not return in 20 s", desc)
+			}
+			if r.Status != runner.StatusRunnerError || r.Error == "" {
+				return vh.Violf("C10:failure-not-reported", "%s: oversize Execve returned %v exit %d %q after %v", desc, r.Status, r.ExitStatus, r.Error, dt)
+			}
+			broken = true
+			classes = append(classes, "oversize-request")
 		case "execve":
 			code := a.Code
 			var s probe.Script
